@@ -61,6 +61,9 @@ def r14_1(ctx, R):
                             if lab[0] == "bool" and lab[1][0] == "binop" and lab[1][1] in ("Gt", "Ge") and lab[2] is True \
                                     and lab[1][3][0] == "const" and lab[1][2][0] == "multi" and tgt not in body and d.dominates(tgt, bb):
                                 licensed = "budget-exhausted"
+            for (h2, body2, nbb, tgt, lo, hi) in c13.range_budgets(ctx, d):
+                if d.dominates(tgt, bb):
+                    licensed = "budget-exhausted"
             pops = R.pop_sites(d)
             for pbb, pt, pfn in pops:
                 dest = place_str(pt["dest"])
